@@ -516,3 +516,198 @@ fn write_node(t: &XTree, i: usize, out: &mut String) {
         Kind::Root | Kind::Attribute | Kind::Namespace => {}
     }
 }
+
+// ---------------------------------------------------------------------------
+// minimal XML reader (tests / replaying cases)
+
+/// Minimal non-validating reader for the XML subset that [`to_xml`] emits
+/// (plus CDATA sections, `'`-quoted attributes, decimal/hex character
+/// references, the five predefined entities and an XML declaration).  No
+/// DOCTYPE.  Line ends and attribute values are normalised as XML 1.0
+/// requires (literal CR LF / CR -> LF; literal tab/LF in attribute values ->
+/// space).  Intended for tests and for replaying generated documents, not as
+/// an oracle for XML parsing.
+pub fn from_xml(src: &str) -> Result<XTree, String> {
+    let normalized = src.replace("\r\n", "\n").replace('\r', "\n");
+    let cs: Vec<char> = normalized.chars().collect();
+    let mut b = TreeBuilder::new();
+    let mut open: Vec<String> = Vec::new();
+    let mut i = 0usize;
+    let n = cs.len();
+    let starts = |i: usize, pat: &str| -> bool {
+        let p: Vec<char> = pat.chars().collect();
+        i + p.len() <= n && cs[i..i + p.len()] == p[..]
+    };
+    let find = |from: usize, pat: &str| -> Option<usize> {
+        let p: Vec<char> = pat.chars().collect();
+        (from..=n.saturating_sub(p.len())).find(|&j| cs[j..j + p.len()] == p[..])
+    };
+    fn split_qname(q: &str) -> (Option<String>, String) {
+        match q.split_once(':') {
+            Some((p, l)) => (Some(p.to_string()), l.to_string()),
+            None => (None, q.to_string()),
+        }
+    }
+    fn unescape(s: &str, attr: bool) -> Result<String, String> {
+        let mut out = String::new();
+        let mut rest = s;
+        while let Some(pos) = rest.find('&') {
+            let head = &rest[..pos];
+            push_norm(&mut out, head, attr);
+            let semi = rest[pos..].find(';').ok_or("unterminated reference")? + pos;
+            let name = &rest[pos + 1..semi];
+            match name {
+                "amp" => out.push('&'),
+                "lt" => out.push('<'),
+                "gt" => out.push('>'),
+                "quot" => out.push('"'),
+                "apos" => out.push('\''),
+                _ => {
+                    let code = if let Some(h) = name.strip_prefix("#x") {
+                        u32::from_str_radix(h, 16).map_err(|e| e.to_string())?
+                    } else if let Some(d) = name.strip_prefix('#') {
+                        d.parse::<u32>().map_err(|e| e.to_string())?
+                    } else {
+                        return Err(format!("unknown entity &{};", name));
+                    };
+                    out.push(char::from_u32(code).ok_or("bad character reference")?);
+                }
+            }
+            rest = &rest[semi + 1..];
+        }
+        push_norm(&mut out, rest, attr);
+        Ok(out)
+    }
+    fn push_norm(out: &mut String, s: &str, attr: bool) {
+        if attr {
+            for c in s.chars() {
+                out.push(if c == '\n' || c == '\t' { ' ' } else { c });
+            }
+        } else {
+            out.push_str(s);
+        }
+    }
+    let is_name_char = |c: char| !(c.is_whitespace() || matches!(c, '=' | '/' | '>' | '<' | '"' | '\'' | '?'));
+    while i < n {
+        if starts(i, "<!--") {
+            let e = find(i + 4, "-->").ok_or("unterminated comment")?;
+            let s: String = cs[i + 4..e].iter().collect();
+            b.comment(&s);
+            i = e + 3;
+        } else if starts(i, "<![CDATA[") {
+            let e = find(i + 9, "]]>").ok_or("unterminated CDATA")?;
+            let s: String = cs[i + 9..e].iter().collect();
+            b.text(&s);
+            i = e + 3;
+        } else if starts(i, "<?") {
+            let e = find(i + 2, "?>").ok_or("unterminated PI")?;
+            let s: String = cs[i + 2..e].iter().collect();
+            let (target, data) = match s.find(|c: char| c.is_whitespace()) {
+                Some(p) => (&s[..p], s[p..].trim_start()),
+                None => (s.as_str(), ""),
+            };
+            if target != "xml" {
+                b.pi(target, data);
+            }
+            i = e + 2;
+        } else if starts(i, "<!") {
+            return Err("DOCTYPE / markup declarations are not supported".into());
+        } else if starts(i, "</") {
+            let e = find(i, ">").ok_or("unterminated end tag")?;
+            let name: String = cs[i + 2..e].iter().collect();
+            let name = name.trim().to_string();
+            match open.pop() {
+                Some(o) if o == name => {}
+                o => return Err(format!("end tag {:?} does not match {:?}", name, o)),
+            }
+            b.end_element();
+            i = e + 1;
+        } else if cs[i] == '<' {
+            let mut j = i + 1;
+            let s0 = j;
+            while j < n && is_name_char(cs[j]) {
+                j += 1;
+            }
+            let qname: String = cs[s0..j].iter().collect();
+            if qname.is_empty() {
+                return Err(format!("bad start tag at {}", i));
+            }
+            let mut decls: Vec<(Option<String>, String)> = Vec::new();
+            let mut attrs: Vec<(Option<String>, String, String)> = Vec::new();
+            let empty;
+            loop {
+                while j < n && cs[j].is_whitespace() {
+                    j += 1;
+                }
+                if j >= n {
+                    return Err("unterminated start tag".into());
+                }
+                if cs[j] == '>' {
+                    empty = false;
+                    j += 1;
+                    break;
+                }
+                if cs[j] == '/' && j + 1 < n && cs[j + 1] == '>' {
+                    empty = true;
+                    j += 2;
+                    break;
+                }
+                let a0 = j;
+                while j < n && is_name_char(cs[j]) {
+                    j += 1;
+                }
+                let an: String = cs[a0..j].iter().collect();
+                while j < n && cs[j].is_whitespace() {
+                    j += 1;
+                }
+                if j >= n || cs[j] != '=' || an.is_empty() {
+                    return Err(format!("bad attribute at {}", a0));
+                }
+                j += 1;
+                while j < n && cs[j].is_whitespace() {
+                    j += 1;
+                }
+                if j >= n || (cs[j] != '"' && cs[j] != '\'') {
+                    return Err(format!("attribute value expected at {}", j));
+                }
+                let q = cs[j];
+                let v0 = j + 1;
+                j = v0;
+                while j < n && cs[j] != q {
+                    j += 1;
+                }
+                if j >= n {
+                    return Err("unterminated attribute value".into());
+                }
+                let raw: String = cs[v0..j].iter().collect();
+                j += 1;
+                let val = unescape(&raw, true)?;
+                if an == "xmlns" {
+                    decls.push((None, val));
+                } else if let Some(p) = an.strip_prefix("xmlns:") {
+                    decls.push((Some(p.to_string()), val));
+                } else {
+                    let (p, l) = split_qname(&an);
+                    attrs.push((p, l, val));
+                }
+            }
+            let (p, l) = split_qname(&qname);
+            b.try_start_element(p.as_deref(), &l, &decls, &attrs)?;
+            if empty {
+                b.end_element();
+            } else {
+                open.push(qname);
+            }
+            i = j;
+        } else {
+            let e = find(i, "<").unwrap_or(n);
+            let raw: String = cs[i..e].iter().collect();
+            b.text(&unescape(&raw, false)?);
+            i = e;
+        }
+    }
+    if !open.is_empty() {
+        return Err(format!("unclosed element {:?}", open.last().unwrap()));
+    }
+    Ok(b.finish())
+}
